@@ -68,6 +68,7 @@ class State:
         s.reads = self.reads
         s.popped = dict(self.popped)
         s.read_results = dict(self.read_results)
+        s.read_refs = dict(getattr(self, "read_refs", {}))
         s.empty_reads = set(self.empty_reads)
         s.selfs = set(self.selfs)
         s.lastres = dict(self.lastres)
@@ -352,6 +353,9 @@ def _walk(f, bb, st, onpath, outcomes, header, body, depth):
                             s2.store[kk] = [a for a in vv if a != ("N", zero_read)]
                 if info and info[0] == "readres":
                     s2.store[("readvariant", info[1])] = [v]
+                if info and info[0] == "readerr":
+                    is_err_edge = (v != "0") if info[2] else (v == "0")
+                    s2.store[("readvariant", info[1])] = ["1" if is_err_edge else "0"]
                 if info and info[0] == "discr":
                     s2.store[("variant", info[1])] = [(v, info[2])]
                 _walk(f, b2, s2, onpath, outcomes, header, body, depth + 1)
@@ -370,6 +374,13 @@ def _stmt(f, st, s, bb):
     if k in ("ref", "copy_for_deref", "rawptr") and dst_local is not None and not place_fields(rv["pl"]) and \
             (rv["pl"]["l"] == 1 or rv["pl"]["l"] in st.selfs):
         st.selfs.add(dst_local)
+        return
+    if k in ("ref", "copy_for_deref") and dst_local is not None and not rv["pl"]["p"] and rv["pl"]["l"] in st.read_results:
+        st.read_refs = dict(getattr(st, "read_refs", {}))
+        st.read_refs[dst_local] = st.read_results[rv["pl"]["l"]]      # `&read_result` handed to is_err / is_ok
+        return
+    if k in ("ref", "copy_for_deref") and dst_local is not None and not rv["pl"]["p"] and rv["pl"]["l"] in st.lastres:
+        st.lastres[dst_local] = st.lastres[rv["pl"]["l"]]      # `&line.last()` handed to a comparison
         return
     if k in ("ref", "copy_for_deref", "rawptr"):
         key = _skey(f, rv["pl"], st)
@@ -462,6 +473,28 @@ def _stmt(f, st, s, bb):
         return
 
 
+def _is_some_newline(f, op, depth=4):
+    """the operand is (a reference to) the promoted constant `Some(&b'\n')`"""
+    if depth == 0 or op["k"] not in ("copy", "move"):
+        return False
+    for i, s_ in f.stmts():
+        if s_["k"] != "assign" or s_["pl"]["l"] != op["pl"]["l"] or s_["pl"]["p"]:
+            continue
+        rv = s_["rv"]
+        if rv["k"] in ("ref", "copy_for_deref"):
+            return _is_some_newline(f, {"k": "copy", "pl": {"l": rv["pl"]["l"], "p": []}}, depth - 1)
+        if rv["k"] == "use" and rv["op"]["k"] == "const" and "promoted" in rv["op"] and rv["op"]["promoted"] < len(f.promoted):
+            body = f.promoted[rv["op"]["promoted"]]
+            some = [ps for pb in body["blocks"] for ps in pb["stmts"] if ps["k"] == "assign" and ps["rv"]["k"] == "aggr" and ps["rv"].get("variant") == "Some"]
+            tens = [ps for pb in body["blocks"] for ps in pb["stmts"] if ps["k"] == "assign" and ps["rv"]["k"] == "use" and
+                    ps["rv"]["op"]["k"] == "const" and ps["rv"]["op"].get("ty") == "u8" and ps["rv"]["op"].get("int") == 10]
+            consts = [ps for pb in body["blocks"] for ps in pb["stmts"] if ps["k"] == "assign" and ps["rv"]["k"] == "use" and ps["rv"]["op"]["k"] == "const"]
+            return len(some) == 1 and len(tens) == 1 and len(consts) == 1
+        if rv["k"] == "use" and rv["op"]["k"] in ("copy", "move"):
+            return _is_some_newline(f, rv["op"], depth - 1)
+    return False
+
+
 def _call(f, st, t, bb):
     fn = t["func"]
     name = short(fn.get("res_path") or fn.get("path") or "?")
@@ -488,6 +521,19 @@ def _call(f, st, t, bb):
         k = akey(0)
         if dl is not None and k is not None:
             st.alias[dl] = k
+        return
+    if name in ("core::result::Result::is_err", "core::result::Result::is_ok") and dl is not None and args and args[0]["k"] in ("copy", "move"):
+        rr = getattr(st, "read_refs", {}).get(args[0]["pl"]["l"])
+        if rr is not None and not args[0]["pl"]["p"]:
+            st.boolinfo[dl] = ("readerr", rr, name.endswith("is_err"))
+        return
+    if name == "<core::option::Option<T> as core::cmp::PartialEq>::eq" and len(args) == 2 and dl is not None:
+        # `line.last() == Some(&b'\n')`: the same newline test as ends_with
+        sides = [a for a in args if a["k"] in ("copy", "move")]
+        lasts = [a for a in sides if not a["pl"]["p"] and a["pl"]["l"] in st.lastres]
+        others = [a for a in sides if a not in lasts]
+        if len(lasts) == 1 and len(others) == 1 and _is_some_newline(f, others[0]):
+            st.boolinfo[dl] = ("nl", st.lastres[lasts[0]["pl"]["l"]], True)
         return
     if name == "core::slice::<impl [T]>::last":
         k = akey(0)
